@@ -249,6 +249,13 @@ pub struct GenCfg {
     pub xmod_same_enumeral: bool,
     /// allow cyclic import graphs
     pub cyclic_imports: bool,
+    /// two ENUMERATED types of ONE module may share an enumeral (resolved by a first-match scan
+    /// in key order on the unchanged tree: deterministic, so fair game for C11; never shared
+    /// across modules, that is finding F5)
+    pub intra_shared_enumerals: bool,
+    /// prefer value assignments governed by named (local or imported) types, and prefer
+    /// imported values as constraint bounds: exercises the linker's associated-type imports
+    pub value_import_bias: bool,
 }
 
 impl GenCfg {
@@ -264,6 +271,8 @@ impl GenCfg {
             xmod_same_name: false,
             xmod_same_enumeral: false,
             cyclic_imports: true,
+            intra_shared_enumerals: false,
+            value_import_bias: false,
         }
     }
 }
@@ -345,7 +354,8 @@ impl<'a> G<'a> {
 
     fn int_constraint(&mut self, m: &mut ModCtx, refs: &mut Vec<String>) -> (String, Option<(i64, i64)>) {
         let ext = if self.rng.chance(1, 4) { ", ..." } else { "" };
-        match self.rng.below(8) {
+        let biased = self.cfg.value_import_bias && m.imported_values.iter().any(|(_, v)| v.cat == "int") && self.rng.chance(3, 4);
+        match if biased { 7 } else { self.rng.below(8) } {
             0 => {
                 let v = self.rng.range(-100, 1000);
                 (format!("({v}{ext})"), Some((v, v)))
@@ -374,7 +384,7 @@ impl<'a> G<'a> {
                     let hi = lo + self.rng.range(1, 500);
                     return (format!("({lo}..{hi}{ext})"), Some((lo, hi)));
                 }
-                let use_imported = !imported.is_empty() && (cands.is_empty() || self.rng.chance(1, 2));
+                let use_imported = !imported.is_empty() && (cands.is_empty() || biased || self.rng.chance(1, 2));
                 let v = if use_imported {
                     let (from, v) = self.rng.pick(&imported).clone();
                     m.used_imports.entry(from).or_default().insert(v.name.clone());
@@ -465,8 +475,11 @@ impl<'a> G<'a> {
                 let n = self.rng.range(1, 5) as usize;
                 let mut items = vec![];
                 for k in 0..n {
+                    let earlier: Vec<String> = m.types.iter().filter(|t| t.cat == "enum").flat_map(|t| t.enumerals.iter().cloned()).filter(|e| !info.enumerals.contains(e)).collect();
                     let e = if k == 0 && m.shared_enumeral.is_some() && self.cfg.xmod_same_enumeral {
                         m.shared_enumeral.clone().unwrap()
+                    } else if self.cfg.intra_shared_enumerals && !earlier.is_empty() && self.rng.chance(1, 3) {
+                        self.rng.pick(&earlier).clone()
                     } else {
                         self.enumeral(m)
                     };
@@ -919,8 +932,23 @@ pub fn generate(rng: &mut Rng, cfg: &GenCfg) -> ModuleSet {
                     .filter(|t| t.cat == "int" && t.range.is_some_and(|(lo, hi)| lo <= v.int && v.int <= hi))
                     .cloned()
                     .collect();
-                let (tyname, text) = match g.rng.below(10) {
-                    0 | 1 if !cands.is_empty() => {
+                // ... or by an imported integer type (the value's governing type then lives in a
+                // third module from the point of view of whoever imports the value)
+                let imported_cands: Vec<(String, TypeInfo)> = ctx
+                    .imported_types
+                    .iter()
+                    .filter(|(_, t)| t.cat == "int" && t.range.is_some_and(|(lo, hi)| lo <= v.int && v.int <= hi))
+                    .cloned()
+                    .collect();
+                let roll = if cfg.value_import_bias { g.rng.below(6) } else { g.rng.below(10) };
+                let (tyname, text) = match roll {
+                    4 | 5 if !imported_cands.is_empty() => {
+                        let (from, t) = g.rng.pick(&imported_cands).clone();
+                        ctx.used_imports.entry(from).or_default().insert(t.name.clone());
+                        refs.push(t.name.clone());
+                        (t.name.clone(), format!("{} {} ::= {}", v.name, t.name, v.int))
+                    }
+                    0..=3 if !cands.is_empty() => {
                         let t = g.rng.pick(&cands).clone();
                         refs.push(t.name.clone());
                         (t.name.clone(), format!("{} {} ::= {}", v.name, t.name, v.int))
@@ -945,7 +973,8 @@ pub fn generate(rng: &mut Rng, cfg: &GenCfg) -> ModuleSet {
                     4 => format!("{vname} BIT STRING ::= '{}'B", ["1010", "0", "11110000", "1"][g.rng.below(4)]),
                     5 => {
                         let enums: Vec<TypeInfo> = ctx.types.iter().filter(|t| t.cat == "enum" && !t.enumerals.is_empty()).cloned().collect();
-                        if let Some(t) = enums.first() {
+                        if !enums.is_empty() {
+                            let t = &enums[g.rng.below(enums.len())];
                             refs.push(t.name.clone());
                             format!("{vname} {} ::= {}", t.name, t.enumerals[g.rng.below(t.enumerals.len())])
                         } else {
